@@ -158,17 +158,33 @@ class Ctx:
         return res
 
     # -- sign knowledge ---------------------------------------------------------------------
+    def gen_nonneg(self, name):
+        i = self.info.get(name, {})
+        if i.get('nonneg'):
+            return True
+        lo = i.get('lo')
+        if lo is not None and lo >= 0:
+            return True
+        return self.gen_positive(name)
+
     def gen_positive(self, name):
         i = self.info.get(name, {})
         if i.get('pos'):
             return True
         lo = i.get('lo')
-        return lo is not None and lo > 0
+        if lo is not None and lo > 0:
+            return True
+        gt = i.get('gt')
+        return gt is not None and gt >= 0
 
     # -- numeric evaluation -----------------------------------------------------------------
     def eval_k(self, kel, env):
         """Evaluate a K element at env: dict name -> float. Derived atoms are computed from their definitions."""
-        return _eval_poly(kel.numer, self, env) / _eval_poly(kel.denom, self, env)
+        try:
+            return _eval_poly(kel.numer, self, env) / _eval_poly(kel.denom, self, env)
+        except OverflowError:
+            fe = {k: Fraction(v) for k, v in env.items() if isinstance(v, (int, float)) and v == v}
+            return float(_eval_poly_exact(kel.numer, fe) / _eval_poly_exact(kel.denom, fe))
 
     def derived_value(self, name, env):
         kind, payload = self.derived_def[name]
@@ -222,6 +238,18 @@ def _eval_poly(p, ctx, env):
     tot = 0.0
     for mon, c in p.terms():
         v = float(int(c.numerator)) / float(int(c.denominator))
+        for n, e in zip(names, mon):
+            if e:
+                v *= env[n] ** e
+        tot += v
+    return tot
+
+
+def _eval_poly_exact(p, env):
+    names = [str(g) for g in p.ring.symbols]
+    tot = Fraction(0)
+    for mon, c in p.terms():
+        v = Fraction(int(c.numerator), int(c.denominator))
         for n, e in zip(names, mon):
             if e:
                 v *= env[n] ** e
@@ -768,26 +796,32 @@ class Sx:
 # K-level algebra helpers: sqrt / abs / rounding / exp atoms
 # ---------------------------------------------------------------------------------------------
 
+def _int_factors(n):
+    from sympy.ntheory import factorint
+    r = math.isqrt(n)
+    if r * r == n:
+        return {r: 2}
+    return factorint(n, limit=2 ** 16)
+
+
 def _int_sqrt_split(n):
-    """n>0 integer -> (s, t) with n = s^2 t, t squarefree."""
+    """n>0 integer -> (s, t) with n = s^2 t, t squarefree as far as factors below 2^16 (and perfect squares) go."""
     s, t = 1, 1
-    d = 2
-    while d * d <= n:
-        e = 0
-        while n % d == 0:
-            n //= d
-            e += 1
-        s *= d ** (e // 2)
+    for p, e in _int_factors(n).items():
+        if p > 2 ** 16:
+            r = math.isqrt(p)
+            if r * r == p:
+                s *= r ** e
+                continue
+        s *= p ** (e // 2)
         if e % 2:
-            t *= d
-        d += 1 if d == 2 else 2
-    t *= n
+            t *= p
     return s, t
 
 
-def _poly_known_positive(poly, ctx):
-    """Conservative: a polynomial is known positive if every term has a positive coefficient and
-    involves only positive generators (to any power) or even powers, with at least one term."""
+def _poly_known_positive(poly, ctx, nonneg_ok=True):
+    """Conservative sign knowledge: every term has a positive coefficient and involves only non-negative
+    generators (to any power) or even powers.  With nonneg_ok the result means 'known >= 0'."""
     terms = poly.terms()
     if not terms:
         return False
@@ -799,17 +833,18 @@ def _poly_known_positive(poly, ctx):
         allpos = True
         for n, e in zip(names, mon):
             if e and not ctx.gen_positive(n):
-                if e % 2:
+                if e % 2 and not (nonneg_ok and ctx.gen_nonneg(n)):
                     return False
                 allpos = False
         if allpos:
             strict = True
-    return strict
+    return strict or nonneg_ok
 
 
 def k_sqrt(k, ctx):
     """Exact square root of a K element known (or assumed by the caller's domain) to be >= 0."""
     K = ctx.K
+    k = _reduce_sqrt_k(k, ctx)
     if k == 0:
         return k
     num, den = k.numer, k.denom
@@ -864,14 +899,9 @@ def k_sqrt(k, ctx):
         n = cf.numerator * cf.denominator
         s, t = _int_sqrt_split(n)
         res = res * ctx.k(Fraction(s, cf.denominator))
-        p = 2
-        tt = t
-        while tt > 1:
-            if tt % p == 0:
+        for p, e in _int_factors(t).items():
+            for _ in range(e):
                 pieces_pos.append(ctx.k(p))
-                tt //= p
-            else:
-                p += 1
     else:
         rest = rest * ctx.k(cf)
     for f, mult in facs:
